@@ -190,6 +190,16 @@ def isLast (s : St) (endLine : Option Nat) (line : Nat) : Bool :=
   else if !s.these.isEmpty && maxThese s.these == some line && t.isNone then true
   else false
 
+/-- does `is_last(line)` raise a TypeError in Python?  `max(these)` compares None with an int
+    when `these` has two or more members one of which is None (only reachable outside class K,
+    e.g. `[*+3-4]` style parts that leave `all_lines` unset) -/
+def isLastRaises (s : St) (line : Nat) : Bool :=
+  let t :=
+    match s.frm, s.to with
+    | some f, some t => if f > t then some f else some t
+    | _, t => t
+  !s.all && !(t == some line) && s.these.length ≥ 2 && s.these.contains none
+
 /-! ### Lexer for the bracket text (`ScanningLexer`): `t_ignore = " \t\n\r"`, NUMBER `\d+`,
     `+`, `-`, `*`. -/
 
